@@ -20,7 +20,7 @@ CHECK = {'title': 'Stored fan data round-trips and is isolated per fan and per k
          '(b) per history (3-5 worker operations on a fresh or a pre-populated database) the worker is killed before its N-th syscall of '
          '{pwrite64,write,fdatasync,fsync,ftruncate,fallocate} for every N = 1..count (count+1 must complete); afterwards the file must open, pass '
          "bbolt's structural check, equal the model before or after the interrupted operation (all acknowledged operations visible, every other entry "
-         'unchanged), load back identically through the real persistence and accept further saves. (c) three concurrent savers on one Persistence (9 entry sets x 6 start orders x database locked by another holder or not x start gap 0/700 us, virtual time): every acknowledged save must load back as saved.',
+         'unchanged), load back identically through the real persistence and accept further saves. (c) three concurrent savers on one Persistence (9 entry sets x 6 start orders x database locked by another holder or not x start gap 0/700 us, virtual time): every acknowledged save must load back as saved. Alphabet additionally: a load while the process has no free file descriptor (the database cannot be opened; the store must be unchanged afterwards) and a save under the empty fan id (refused by the store: if it is acknowledged it has to be loadable).',
  'assumptions': ['tmpfs (/dev/shm) stands in for the disk file system; only process death is modelled, not power loss or torn pages',
                  'strace signal injection at syscall entry kills the worker before the syscall executes (kernel aborts syscall entry on a fatal signal); '
                  'crash instants are therefore enumerated at syscall granularity of the one database thread',
